@@ -287,10 +287,18 @@ def unit_rate_two_team(model, sizes, vec):
     return out
 
 
+def unit_anysize(model, n):
+    """same-direction (two arbitrary members), first/last-alone for teams of every size"""
+    from . import anysize
+    return anysize.c05(model, n)
+
+
 def units(tier):
     us = [("unit_lemmas", ())]
     nmax = 4 if tier == "quick" else 8
     for m in extract.MODELS:
+        for n in range(2, (4 if tier == "quick" else 7) + 1):
+            us.append(("unit_anysize", (m, n)))
         for n in range(2, nmax + 1):
             svs = size_vectors(n, tier)
             for sizes in (svs if n <= 3 or tier == "thorough" else svs[:2]):
@@ -323,9 +331,10 @@ def main(tier, seed):
             "contract clauses of v, vt assumed here and verified in C17: v > 0; v(x,t) >= vt(x,t) >= -v(-x,t); x >= 0 => vt(x,t) <= t; x <= 0 => vt(x,t) >= -t",
             "two-team-order, swap-up, identical-teams are proved on the published update; they transfer to the code through the link obligations mu-equals-published-update (all tie patterns of every listed shape); for two teams the link is also proved on the real rate() for symbolic rank and score values (win / draw / loss are paths), for more teams rate's sort is C02/C03's business",
             "Thurstone-Mosteller partial pairing is linked with pair scale 2 (known finding K1 of C01)",
+            __import__("pyvc.props.anysize", fromlist=["A_SUM"]).A_SUM,
             "shape-bounded: n = 2..4 quick / 2..8 thorough; two-team sizes and swap-up/identical n listed in coverage.shapes",
         ],
         explanation=("Per shape the mu results of the real _compute are proved equal (exact normal forms) to the published update mu + share*Omega_i, and the same-direction/proportionality identity is proved on the code's own terms. The sign clauses are then proved for Omega_i of that update: first/last-alone by a structural sign proof (sums from addends, products from factors, leaves by z3 with the relevant lemma instances); "
                      "two-team loss<=draw<=win, prior between loss and win, draw direction; swap-up; identical teams ordered by place - by the exact normal form of the difference being term-wise non-negative or by z3 over the canonical atoms, with exp-monotonicity instances and the v/vt contract clauses."),
-        shapes=sorted({str(u[1][1]) for u in units(tier) if u[0] != "unit_lemmas"}),
+        shapes=sorted({(str(u[1][1]) if u[0] != "unit_anysize" else f"n={u[1][1]}, every team size") for u in units(tier) if u[0] != "unit_lemmas"}),
     )
